@@ -23,6 +23,15 @@ def main():
            "", "| change | breaks | checks run against it (quick tier) | note |", "|---|---|---|---|"]
     for r in rows:
         out.append("| `%s` | %s | %s | %s |" % r)
+    refs = sorted(glob.glob(os.path.join(common.VERIF, "seeded", "refactorings", "*", "meta.json")))
+    if refs:
+        out += ["", "# Behaviour-preserving refactorings (false-alarm test)", "",
+                "`refactorings/<name>/patch.diff`: non-trivial restructurings written by sub-agents that were asked to keep every observable behaviour (including panic paths). The 192 tests pass with each; the listed checks were run against each and must exit 0 (no alarm, no unsupported construct).",
+                "", "| refactoring | suite | checks (quick tier) |", "|---|---|---|"]
+        for mp in refs:
+            m = json.load(open(mp))
+            cells = ", ".join("%s: exit %d" % (p, c["exit"]) for p, c in m["checks"].items())
+            out.append("| `%s` | %s | %s |" % (m["name"], "pass" if m.get("suite_passes") else "FAIL", cells))
     with open(os.path.join(common.VERIF, "seeded", "README.md"), "w") as fh:
         fh.write("\n".join(out) + "\n")
     print("\n".join(out))
